@@ -1,12 +1,14 @@
 package engines
 
 import (
+	"encoding/hex"
 	"fmt"
 	"sort"
 	"strconv"
 	"strings"
 
 	"github.com/kercylan98/vivid/internal/cluster"
+	"github.com/kercylan98/vivid/internal/messages"
 )
 
 // Engine vv: pure operations of cluster.VersionVector (M7).
@@ -71,6 +73,33 @@ func showVVMap(m map[string]uint64) string {
 	return sb.String()
 }
 
+func hexOrDash(b []byte) string {
+	if len(b) == 0 {
+		return "-"
+	}
+	return hex.EncodeToString(b)
+}
+
+// showVVMapHex: like showVVMap with the node names in hex (names read from arbitrary bytes).
+func showVVMapHex(m map[string]uint64) string {
+	if len(m) == 0 {
+		return "-"
+	}
+	ks := make([]string, 0, len(m))
+	for k := range m {
+		ks = append(ks, k)
+	}
+	sort.Strings(ks)
+	var sb strings.Builder
+	for i, k := range ks {
+		if i > 0 {
+			sb.WriteByte(',')
+		}
+		fmt.Fprintf(&sb, "%s:%d", hexOrDash([]byte(k)), m[k])
+	}
+	return sb.String()
+}
+
 func sameMap(a, b map[string]uint64) bool {
 	if len(a) != len(b) {
 		return false
@@ -123,6 +152,25 @@ func (*vvEngine) Exec(line string) (obs string, viol string) {
 	}
 	if v := vvMonitor(line, obs); v != "" {
 		viol = v
+	}
+	if tk := strings.Fields(line); len(tk) == 2 && tk[0] == "ser" && obs != "bad-op" {
+		// C16: a vector within the documented limits survives serialisation unchanged
+		if m, ok := parseVVMap(tk[1]); ok {
+			within := len(m) <= cluster.VerifMaxVersionVectorEntries
+			for k, cnt := range m {
+				if k == "" || len(k) > cluster.VerifMaxNodeAddressLength || cnt > cluster.VerifMaxCounterValue {
+					within = false
+				}
+			}
+			if within {
+				f := strings.Fields(obs)
+				if len(f) != 3 {
+					viol = fmt.Sprintf("SERIALISE: a vector within the limits (%s) is refused by the writer or by the reader of its own bytes", tk[1])
+				} else if f[1] != showVVMapHex(m) || f[2] != "left=0" {
+					viol = fmt.Sprintf("SERIALISE: %s comes back as %s %s", showVVMapHex(m), f[1], f[2])
+				}
+			}
+		}
 	}
 	if tk := strings.Fields(line); len(tk) == 3 && tk[0] == "wide" && obs != "bad-op" {
 		n, _ := strconv.Atoi(tk[1])
@@ -309,6 +357,38 @@ func vvExec(line string) (obs string) {
 			return s + mutated(a, ma)
 		}
 		return showVVMap(cluster.VerifVVMap(r)) + mutated(a, ma)
+	case tk[0] == "ser" && len(tk) == 2:
+		// WriteVersionVector, then ReadVersionVector of the bytes written
+		ma, ok1 := parseVVMap(tk[1])
+		if !ok1 {
+			return "bad-op"
+		}
+		a := cluster.VerifVVFromMap(ma)
+		w := messages.NewWriter()
+		if err := cluster.WriteVersionVector(w, a); err != nil {
+			return "err" + mutated(a, ma)
+		}
+		bs := append([]byte(nil), w.Bytes()...)
+		r := messages.NewReader(bs)
+		v, err := cluster.ReadVersionVector(r)
+		if err != nil {
+			return "err" + mutated(a, ma)
+		}
+		return fmt.Sprintf("%s %s left=%d", hexOrDash(bs), showVVMapHex(cluster.VerifVVMap(v)), r.RemainingSize()) + mutated(a, ma)
+	case tk[0] == "rd" && len(tk) == 2:
+		var bs []byte
+		if tk[1] != "-" {
+			var err error
+			if bs, err = hex.DecodeString(tk[1]); err != nil {
+				return "bad-op"
+			}
+		}
+		r := messages.NewReader(bs)
+		v, err := cluster.ReadVersionVector(r)
+		if err != nil {
+			return "err"
+		}
+		return fmt.Sprintf("%s left=%d", showVVMapHex(cluster.VerifVVMap(v)), r.RemainingSize())
 	case tk[0] == "wide" && len(tk) == 3:
 		// wide <n> <k>: W = {w0..w(n-1) -> 1}, E = {e0..e(k-1) -> 2}: the join laws on vectors around the
 		// serialisation limit, summarised (the Go side also checks every law on the maps, see vvWide)
@@ -427,6 +507,45 @@ func (e *vvEngine) Generate(c *Ctx) {
 			}
 		}
 	}
+	// (1c) serialisation: every enumerated vector (counters 0, 1, 2, max-1, max), counters above the maximum,
+	// addresses of 0 / 256 / 257 bytes; then reads of damaged encodings
+	for _, a := range all {
+		if a == "-" || c.Thorough() || c.Rng.Chance(1, 2) {
+			o := c.Case("ser " + a)
+			c.R.Nontrivial()
+			c.R.Hit("ser:ok")
+			if strings.Contains(a, fmt.Sprint(cluster.VerifMaxCounterValue)) {
+				c.R.Hit("ser:max-counter")
+			}
+			if f := strings.Fields(o); len(f) == 3 && f[0] != "-" && c.Rng.Chance(1, 4) {
+				h := f[0]
+				cut := 2 * c.Rng.Intn(len(h)/2)
+				c.Do("rd " + h[:cut])
+				c.R.Hit("rd:truncated")
+				b, _ := hex.DecodeString(h)
+				b[c.Rng.Intn(len(b))] ^= byte(1 << c.Rng.Intn(8))
+				c.Do("rd " + hex.EncodeToString(b))
+				c.Do("rd " + h + "00ff")
+				c.R.Hit("rd:damaged")
+			}
+		}
+	}
+	for _, a := range []string{
+		"a:9223372036854775808", "a:18446744073709551615", "a:1,b:9223372036854775808",
+		"@256:1", "@257:1", "@256:9223372036854775807,b:0", "~:1", "a:0", "a:0,b:0,c:0",
+	} {
+		o := c.Case("ser " + a)
+		c.R.Nontrivial()
+		if o == "err" {
+			c.R.Hit("ser:refused")
+		}
+	}
+	c.Case("rd -")
+	c.Do("rd 00000000")
+	c.Do("rd 0000ffff")
+	c.Do("rd 00010000")
+	c.Do("rd ffffffff")
+	c.Do("rd 000000020000000161000000000000000100000001610000000000000002") // a:1 then a:2: the last one wins
 	// (2) increment on every vector x every key + invalid names
 	for _, a := range all {
 		for _, k := range append(append([]string(nil), keys...), "z", "~", "@256", "@257") {
